@@ -15,23 +15,23 @@ Qed.
 
 Theorem journal_export_correct_l :
   forall sd_head sd_rt, J1_contract sd_head sd_rt ->
-  forall j A B, nondecreasing (times j) -> bound_ok A -> bound_ok B -> Forall wf_entry j ->
+  forall j A B, nondecreasing (times j) -> valid_realtimes (times j) -> bound_rep A -> bound_rep B -> Forall wf_entry j ->
   parse_export (journal_stdout sd_head sd_rt stop_after RExport A B j)
   = POk (map export_fields (window e_time A B j)).
 Proof.
-  intros sd_head sd_rt J1 j A B Hs HA HB Hwf.
-  rewrite (journal_stdout_correct_l sd_head sd_rt J1 RExport j A B Hs HA HB).
+  intros sd_head sd_rt J1 j A B Hs Hv HA HB Hwf.
+  rewrite (journal_stdout_correct_l sd_head sd_rt J1 RExport j A B Hs Hv HA HB).
   cbn [render]. apply export_roundtrip_stream_l. unfold window. apply Forall_filter. exact Hwf.
 Qed.
 
 Theorem journal_cat_correct_l :
   forall sd_head sd_rt, J1_contract sd_head sd_rt ->
-  forall j A B, nondecreasing (times j) -> bound_ok A -> bound_ok B ->
+  forall j A B, nondecreasing (times j) -> valid_realtimes (times j) -> bound_rep A -> bound_rep B ->
   journal_stdout sd_head sd_rt stop_after RCat A B j
   = concat (map render_cat (window e_time A B j)).
 Proof.
-  intros sd_head sd_rt J1 j A B Hs HA HB.
-  exact (journal_stdout_correct_l sd_head sd_rt J1 RCat j A B Hs HA HB).
+  intros sd_head sd_rt J1 j A B Hs Hv HA HB.
+  exact (journal_stdout_correct_l sd_head sd_rt J1 RCat j A B Hs Hv HA HB).
 Qed.
 
 (* hypotheses satisfiable: the reference oracle, a two-entry journal with a multi-line value *)
